@@ -349,6 +349,17 @@ func c02Bounds(c *Ctx, r *Report) []*panicSite {
 	if cache == "" {
 		cache = filepath.Join(verifDir(), ".cache", "bce")
 	}
+	// the private cache only ever needs the current tree's objects: start over when it has grown
+	var sz int64
+	_ = filepath.Walk(cache, func(_ string, fi os.FileInfo, err error) error {
+		if err == nil && !fi.IsDir() {
+			sz += fi.Size()
+		}
+		return nil
+	})
+	if sz > 400<<20 {
+		_ = os.RemoveAll(cache)
+	}
 	_ = os.MkdirAll(cache, 0o755)
 	cmd := exec.Command("go", "build", "-gcflags="+modPath+"/...=-d=ssa/check_bce/debug=1", "./lints/...", "./util/...", "./lint/...", ".")
 	cmd.Dir = c.V3Dir
